@@ -205,6 +205,22 @@ CLAIMS = {
              "(decimal128), 85673dd (reading cell.style marked it changed; save crashed on gradient backgrounds). Trusted: " + TB,
         technique="contract-based deductive verification of the record/codec/string-list kernels + bounded whole-document re-save "
                   "stand-in (mixed)"),
+    "C07": dict(
+        category="other", design="DESIGN.md section 7 C07",
+        text="Mixed. Proved (contract-based, real containers.py/model.py): new_message_id/create_object_from_dict under the store invariant "
+             "(every stored id <= _max_id and mapped to an archive file of the file store): the new id is old _max_id+1, was not stored, is "
+             "recorded as last_object_identifier; exactly that id, its file mapping and (if needed) its file are added, nothing else is "
+             "lost; recalculate_row_info for any number of columns and record lengths (loop invariants over prefix sums): offset k is -1 or "
+             "the byte position >> 2, records 4-byte aligned, strictly increasing, non-overlapping, inside the buffer, offsets fit int16 "
+             "(lemmas ALIGNED/INCREASING/INT16), cell_count exact; the tile loop of recalculate_table_data (nested loop invariants, any "
+             "number of rows): consecutive tile ids, every row exactly once in tile r>>8 at position r&255, declared == stored row counts, "
+             "each tile a fresh object with a metadata entry; complete syntactic check that every object created in a new archive file "
+             "is passed to add_component_metadata with the matching locator. Reference closure and whole-package structure: bounded "
+             "stand-in with an independent validator - it reports one open known finding, so the level is not 'proof'.",
+        note="Assumes ghost records for protobuf messages and the store dicts, C04's record-length facts, <= 1000 columns. Open known finding "
+             "F-C07-1 (null category_owner reference in tables the library creates; deliberate in the source). Trusted: " + TB,
+        technique="contract-based deductive verification (nested loop invariants, prefix-sum spec functions with induction lemmas, symbolic "
+                  "maps for the object store) + bounded structural-validator stand-in (mixed)"),
 }
 NA_REASON = "check not built yet (build in progress; see DESIGN.md section 7 for the plan)"
 
